@@ -34,6 +34,7 @@ type LoopSpec struct {
 	Invariants []*Clause
 	Decreases  *Clause
 	Uses       []*Clause
+	Preserves  []*Clause // heap keys that no reachable store of the body changes (checked at every latch)
 	Unroll     int
 }
 
@@ -384,7 +385,7 @@ func (cs *ContractSet) parseContractFile(path string, defaultPkg, defaultPkgName
 			lastClause = c
 			pendingText = &c.Text
 		case "loop":
-			// loop K invariant|decreases|use|unroll TEXT
+			// loop K invariant|decreases|use|preserves|unroll TEXT
 			f := strings.Fields(rest)
 			if len(f) < 2 {
 				cs.Errors = append(cs.Errors, fmt.Sprintf("%s:%d: bad loop clause", path, ln+1))
@@ -409,6 +410,8 @@ func (cs *ContractSet) parseContractFile(path string, defaultPkg, defaultPkgName
 				ls.Decreases = c
 			case "use":
 				ls.Uses = append(ls.Uses, c)
+			case "preserves":
+				ls.Preserves = append(ls.Preserves, c)
 			case "unroll":
 				ls.Unroll, _ = strconv.Atoi(text)
 				continue
